@@ -318,9 +318,10 @@ type Type struct {
 
 	YangType *YangType
 
-	// resolveErrs are the errors found when YangType was resolved; they are
-	// reported again by every later call of resolve.
-	resolveErrs []error
+	// resolveFailed is set when the last attempt to resolve YangType
+	// reported errors; such a type is resolved again by the next call, so
+	// that the errors are reported again, against the modules loaded then.
+	resolveFailed bool
 }
 
 func (Type) Kind() string             { return "type" }
